@@ -633,6 +633,19 @@ def execStmt (w : World τ) (a : ActId) (fs : List (Frame τ)) : Stmt τ → Wor
              | some d, _ => 1 :: tArgs d
              | none, some t => 2 :: tArgs t
              | none, none => [0, 0, 1]))).retTo a fs .unit
+  | .spawnRoot scope idx prog =>                                       -- usim/__init__.py run(): `scope.do(activity)`
+    match lookup w.scopeNames scope with
+    | none => w.retTo a fs .unit
+    | some sid =>
+      let tid := w.tasks.size
+      let dc := w.conds.size
+      let (w, _) := w.newCond (.done tid false (dc + 1))
+      let (w, _) := w.newCond (.notDone dc)
+      let (w, r) := w.newAct [.taskStart tid none none prog, .coroutineEnd] true (idx : Int)
+      let tk : Task := { runner := r, parent := sid, volatile := false, done := dc, quiet := true }
+      let w := { w with tasks := w.tasks.push tk }
+      let w := w.scheduleNow r none
+      (w.setScope sid (fun x => { x with children := x.children ++ [tid] })).retTo a fs .unit
   | .cancel task tok =>                                                -- task.py Task.cancel
     match lookup w.taskNames task with
     | none => (w.emit a "unbound" []).retTo a fs .unit
@@ -1415,7 +1428,7 @@ structure Decls (τ : Type) where
   resources : List (List Int × Bool) := []
   pipes : List (Option τ) := []
 
-def initWorld (cfg : Config) (start : τ) (d : Decls τ) (roots : List (Prog τ)) : World τ :=
+def initWorld (cfg : Config) (start : τ) (d : Decls τ) (roots : List (Prog τ)) (till : Option τ := none) : World τ :=
   let w : World τ := { cfg := cfg, time := start }
   -- flags: each `Flag()` creates its `InverseFlag`
   let w := (List.range d.flags).foldl (fun (w : World τ) f =>
@@ -1448,9 +1461,19 @@ def initWorld (cfg : Config) (start : τ) (d : Decls τ) (roots : List (Prog τ)
     let (w, n) := w.newCond .plain
     { w with pipes := w.pipes.push { throughput := t, scale := TimeLike.ofInt 1, congested := n } }) w
   -- root activities are pushed into the time queue at `start` (loop.py:131-132)
-  let (w, acts) := roots.foldl (fun (p : World τ × List Activation) prog =>
-    let (w, a) := p.1.newAct [.seq prog, .coroutineEnd] true p.2.length
-    (w, p.2 ++ [{ target := a, signal := none }])) (w, [])
-  { w with queue := [(start, acts)] }
+  match till with
+  | none =>
+    let (w, acts) := roots.foldl (fun (p : World τ × List Activation) prog =>
+      let (w, a) := p.1.newAct [.seq prog, .coroutineEnd] true p.2.length
+      (w, p.2 ++ [{ target := a, signal := none }])) (w, [])
+    { w with queue := [(start, acts)] }
+  | some t =>
+    -- `run(.., till=t)` (usim/__init__.py): one hidden root activity
+    -- `async with until(time == t) as scope: for activity in activities: scope.do(activity)`
+    let h := w.freshName
+    let w := { w with freshName := h + 1 }
+    let spawns := (roots.zipIdx).map (fun (pi : Prog τ × Nat) => Stmt.spawnRoot h pi.2 pi.1)
+    let (w, a) := w.newAct [.seq [.scope h (some (.cond (.moment t))) spawns], .coroutineEnd] false (-1)
+    { w with queue := [(start, [{ target := a, signal := none }])] }
 
 end USim.Machine
